@@ -146,7 +146,9 @@ func runHistory(c *HistCase) (histStats, error) {
 			}
 			obj := c.Objs[s.Obj%len(c.Objs)]
 			var oa, ob interface{}
-			if c.Shared != "" {
+			if obj.Mode == "nil" {
+				oa, ob = nil, nil
+			} else if c.Shared != "" {
 				oa = shared.set(obj)
 				ob = oa
 			} else {
@@ -349,6 +351,9 @@ func TestC07Faults(t *testing.T) {
 		for i := 0; i < nobj; i++ {
 			o := drawFaultObject(rt)
 			o.Mode = mode
+			if i > 0 && gen.Uniform(rt, "nilobj", 6) == 0 {
+				o = &eng.ObjSpec{Mode: "nil", Fields: []eng.Field{{Name: "Mode", V: lang.Str("nil-object")}}}
+			}
 			c.Objs = append(c.Objs, o)
 		}
 		n := rapid.IntRange(2, maxSteps).Draw(rt, "nsteps")
